@@ -219,6 +219,22 @@ def generic(prop, fams, tier, seed, replay, preds, rule, nontrivial, require=(),
     return res, runs, cases
 
 
+def judge_long(res, prop, runs, ranges=True):
+    """the inputs beyond the exhaustive bound (model-checked in lean mode): acceptance, consumed length and tree"""
+    n = 0
+    for r in runs:
+        for c in r.real_only:
+            c.fam = r.fam
+            if c.exp is None or c.crashed:
+                continue
+            n += 1
+            res.add(props.p_conforms(prop, c) or props.p_tree(prop, c, ranges=ranges))
+    res.coverage["long_inputs_model_checked"] = n
+    res.coverage["states"] = res.coverage.get("states", 0) + sum((r.tlc_lean or {}).get("distinct", 0) for r in runs)
+    res.coverage["transitions"] = res.coverage.get("transitions", 0) + sum((r.tlc_lean or {}).get("states", 0) for r in runs)
+    return n
+
+
 def monitor(res, prop, kind, cases, tier, formula, what):
     """impl > spec: validate the recorded traces with TLC against a monitor specification"""
     bad, ev, st = traces.validate_cases(kind, cases, os.path.join(vlib.WORK, tier, "traces"), prop)
@@ -276,7 +292,11 @@ def check_C04(tier, seed, replay):
         require=("Lit", "Range", "AnyChar", "CallChar", "CallExtern"),
         assumptions=["memory safety itself is not decidable by this technique: decided is the precondition of the "
                      "single unsafe operation (every advance on a boundary and in bounds, hook H1 asserts it)"])
-    monitor(res, "C04", "boundary", cases, tier, "BoundaryMonitor", "an offset off a character boundary, or a panic")
+    judge_long(res, "C04", runs)
+    long_cases = [c for r in runs for c in r.real_only]
+    for c in long_cases:
+        res.add(p_boundaries("C04", c))
+    monitor(res, "C04", "boundary", cases + long_cases, tier, "BoundaryMonitor", "an offset off a character boundary, or a panic")
     return res
 
 
@@ -289,6 +309,7 @@ def check_C05(tier, seed, replay):
         "up to the bound; non-trivial = a case of a variant with at least one memoized rule",
         lambda c: bool(c.g.meta.get("memo")), require=("MemoHit", "MemoMiss", "MemoStore"))
     # variant against variant on the real code
+    judge_long(res, "C05", runs)
     long_cases = [c for r in runs for c in r.real_only]
     for c in long_cases:
         c.fam = "memo"
@@ -409,6 +430,7 @@ def check_C08(tier, seed, replay):
         "character",
         lambda c: any(x in (32, 9, 10, 11, 12, 13, 35, 46) for x in c.inp),
         require=("SkipWsBuiltin", "SkipWsUser", "WsUserOk", "WsUserFail", "IncEnter", "BuiltinWs"))
+    judge_long(res, "C08", runs)
     return res
 
 
